@@ -2,6 +2,8 @@
 tied to C09.buildGraph in lean/Cellml/Tie/GraphBuild.lean.
 
 State threaded explicitly: `cache` (self._graph), `ty` (the `.type` attributes of all Variable objects), `graph`.
+The tie (graph_tie_types) equates the returned graph, the cache AND the `.type` attributes left behind (three loops:
+left-hand sides, then STATE, then FREE - the roles that come from the ODEs win, whatever the order of the equations).
 Leaves bound here (none of them is decided inside the property):
  * self._graph; nx.DiGraph(); self._name_to_variable.values(); equation.atoms(Variable) (sympy);
    self.find_variables_and_derivatives([equation.rhs]) (a set, in whatever order); sorted(xs, key=str) (the python
